@@ -413,9 +413,9 @@ pub fn run(args: &Args) -> i32 {
     let thorough = args.thorough();
     let modes = [Mode::Settings, Mode::FooterV2, Mode::FooterV3];
     let mut total = Tally::default();
-    let l0 = if thorough { 7 } else { 6 };
+    let l0 = if args.digest_mode { 4 } else if thorough { 7 } else { 6 };
     total = total.merge(sweep_exhaustive(&cyc, b"", b"", l0, &modes, &rec, "all_short_strings"));
-    let l1 = if thorough { 6 } else { 5 };
+    let l1 = if args.digest_mode { 3 } else if thorough { 6 } else { 5 };
     for (i, (p, t)) in [("AAA", ""), ("AAA0", ""), ("AAA0A", "A0,0,0"), ("AAA0AAA", ""), ("AAA0AAA,", ",0"), ("AAA0AAA,0,", ""), ("AAA0AAA,0/", ",0"), ("AAA0AAA,M1.1.0,M", ""), ("<", "0"), ("<AAA>", ""), ("AAA0AAA0,J1/", ",J9")].iter().enumerate() {
         total = total.merge(sweep_exhaustive(&cyc, p.as_bytes(), t.as_bytes(), l1, &modes, &rec, &format!("prefix_{i}")));
     }
